@@ -11,4 +11,14 @@ CHECKS["C11"] = {
     "text": "Every Grid the workload constructs (including those built internally by refine, barycentric_refinement, union and grid_from_segments, seen through a post-condition on Grid.__init__) is walked against a brute-force model of edges, incidence tables, adjacency tables with dereferenced local indices, boundary flags and all geometric arrays; derived grids are checked for area, orientation, domain-index and nesting preservation by geometric parent search. Exhaustive over all 525 sub-complexes of three base meshes; sampled over mesh families, relabelings, dtypes, memory orders and random non-manifold soups.",
     "note": "Trusted: the brute-force model in vlib. Held on the grids observed; soups are limited to <= 13 elements, families to <= 400 elements for derived grids.",
 }
+CHECKS["C09"] = {
+    "technique": "invariant walker hooked on FunctionSpace.__init__ vs brute-force entity model; pointwise continuity / partition-of-unity probes",
+    "text": "Every space of a generated workload (9 kinds x segment/support subsets x the four include_boundary_dofs/truncate_at_segment_edge combinations x swapped normals x closed/open/multi-domain/genus-1 meshes) is walked: local2global/global2local mutually inverse, maps to the localised/full-grid space equal their definition, each DOF sits on one brute-force-selected vertex/edge/element, DOF count equals the brute-force entity count, value/normal/tangential continuity across every interior edge at 3 points for random coefficients, partition of unity where the property claims it. The generic part also runs as a post-condition of FunctionSpace.__init__ (localised, barycentric and internal coarse spaces).",
+    "note": "Trusted: brute-force entity model (vlib/spaces.py). Selections with zero DOFs and edge spaces on supports with an edge shared by 3 supported elements are outside the model and skipped (counted).",
+}
+CHECKS["C16"] = {
+    "technique": "lockset-style write-set monitor at kernel launches + colouring walker + schedule sweep with result hashing (omp and workqueue layers)",
+    "text": "The data-race guarantee is decided deterministically: a colouring walker on every space of the C09-style workload (no two elements of one colour share a local2global value, artificial zero-multiplier DOFs included) and a launch recorder that checks, for every regular-kernel launch of the operator workload, that the test elements processed in one prange write pairwise disjoint rows and that all index arguments are inside the array extents. The observable is decided by re-assembling each operator/potential under thread counts {1,2,7,16} x chunk sizes {0,1,3} x repetitions, with GIL-releasing CPU noise and concurrent Python threads, on two threading layers: one SHA-1 per operator.",
+    "note": "ThreadSanitizer/helgrind cannot instrument Numba JIT code; the write-set monitor replaces them. Determinism is 'held on the schedules observed' (listed in the evidence), not a proof over all OpenMP schedules.",
+}
 NOT_APPLICABLE = {}
